@@ -19,6 +19,7 @@ type c09site struct {
 	name string
 	path []string // path to the schema / simple-schema object that receives the value
 	bad  any      // a value its schema rejects
+	good any      // a value its schema accepts (nil: none offered)
 }
 
 func c09pairBase() map[string]any {
@@ -26,8 +27,9 @@ func c09pairBase() map[string]any {
 "paths":{
  "/a":{"get":{"operationId":"opA","responses":{"200":{"description":"ok","schema":{"type":"object","properties":{"count":{"type":"integer"}}}}}}},
  "/b":{"get":{"operationId":"opB","responses":{"200":{"description":"ok","schema":{"type":"object","properties":{"count":{"type":"integer"}}}},"default":{"description":"err","schema":{"type":"object","properties":{"code":{"type":"integer"}}}}}}},
- "/c":{"post":{"operationId":"opC","parameters":[{"name":"q","in":"query","type":"integer"},{"name":"body","in":"body","schema":{"type":"object","properties":{"n":{"type":"integer"}}}}],
-       "responses":{"200":{"description":"ok","headers":{"X-N":{"type":"integer"}},"schema":{"$ref":"#/definitions/D1"}},"404":{"description":"nf","schema":{"type":"array","items":{"type":"integer"}}}}}},
+ "/c":{"post":{"operationId":"opC","parameters":[{"name":"q","in":"query","type":"integer"},{"name":"body","in":"body","schema":{"type":"object","properties":{"n":{"type":"integer"}}}},
+         {"name":"arr","in":"query","type":"array","items":{"type":"integer","maximum":10}},{"name":"arr2","in":"query","type":"array","items":{"type":"array","items":{"type":"integer"}}}],
+       "responses":{"200":{"description":"ok","headers":{"X-N":{"type":"integer"},"X-L":{"type":"array","items":{"type":"integer"}}},"schema":{"$ref":"#/definitions/D1"}},"404":{"description":"nf","schema":{"type":"array","items":{"type":"integer"}}}}}},
  "/d":{"get":{"operationId":"opD","responses":{"200":{"description":"ok","schema":{"$ref":"#/definitions/D2"}},"404":{"description":"nf","schema":{"type":"object","properties":{"why":{"type":"integer"}}}}}}}},
 "definitions":{"D1":{"type":"object","properties":{"x":{"type":"integer"}}},"D2":{"type":"object","properties":{"y":{"type":"integer"},"z":{"type":"object","properties":{"w":{"type":"integer"}}}}}}}`
 	var m map[string]any
@@ -39,17 +41,27 @@ func c09pairBase() map[string]any {
 
 func c09pairSites() []c09site {
 	return []c09site{
-		{"opA.200.count", []string{"paths", "/a", "get", "responses", "200", "schema", "properties", "count"}, "bad"},
-		{"opB.200.count", []string{"paths", "/b", "get", "responses", "200", "schema", "properties", "count"}, "bad"},
-		{"opB.default.code", []string{"paths", "/b", "get", "responses", "default", "schema", "properties", "code"}, "bad"},
-		{"opC.query.q", []string{"paths", "/c", "post", "parameters", "#0"}, "bad"},
-		{"opC.body.n", []string{"paths", "/c", "post", "parameters", "#1", "schema", "properties", "n"}, "bad"},
-		{"opC.200.header", []string{"paths", "/c", "post", "responses", "200", "headers", "X-N"}, "bad"},
-		{"opC.404.items", []string{"paths", "/c", "post", "responses", "404", "schema", "items"}, "bad"},
-		{"opD.404.why", []string{"paths", "/d", "get", "responses", "404", "schema", "properties", "why"}, "bad"},
-		{"D1.x", []string{"definitions", "D1", "properties", "x"}, "bad"},
-		{"D2.y", []string{"definitions", "D2", "properties", "y"}, "bad"},
-		{"D2.z.w", []string{"definitions", "D2", "properties", "z", "properties", "w"}, "bad"},
+		{"opA.200.count", []string{"paths", "/a", "get", "responses", "200", "schema", "properties", "count"}, "bad", nil},
+		{"opB.200.count", []string{"paths", "/b", "get", "responses", "200", "schema", "properties", "count"}, "bad", nil},
+		{"opB.default.code", []string{"paths", "/b", "get", "responses", "default", "schema", "properties", "code"}, "bad", nil},
+		{"opC.query.q", []string{"paths", "/c", "post", "parameters", "#0"}, "bad", nil},
+		{"opC.body.n", []string{"paths", "/c", "post", "parameters", "#1", "schema", "properties", "n"}, "bad", nil},
+		{"opC.200.header", []string{"paths", "/c", "post", "responses", "200", "headers", "X-N"}, "bad", nil},
+		{"opC.404.items", []string{"paths", "/c", "post", "responses", "404", "schema", "items"}, "bad", nil},
+		{"opD.404.why", []string{"paths", "/d", "get", "responses", "404", "schema", "properties", "why"}, "bad", nil},
+		{"D1.x", []string{"definitions", "D1", "properties", "x"}, "bad", nil},
+		{"D2.y", []string{"definitions", "D2", "properties", "y"}, "bad", nil},
+		{"D2.z.w", []string{"definitions", "D2", "properties", "z", "properties", "w"}, "bad", nil},
+		// values at two levels of ONE parameter / header / schema
+		{"opC.query.arr", []string{"paths", "/c", "post", "parameters", "#2"}, "bad", []any{1.0, 2.0}},
+		{"opC.query.arr.items", []string{"paths", "/c", "post", "parameters", "#2", "items"}, 20.0, 3.0},
+		{"opC.query.arr2", []string{"paths", "/c", "post", "parameters", "#3"}, "bad", []any{[]any{1.0}}},
+		{"opC.query.arr2.items", []string{"paths", "/c", "post", "parameters", "#3", "items"}, "bad", []any{1.0}},
+		{"opC.query.arr2.items.items", []string{"paths", "/c", "post", "parameters", "#3", "items", "items"}, "bad", 3.0},
+		{"opC.200.headerL", []string{"paths", "/c", "post", "responses", "200", "headers", "X-L"}, "bad", []any{1.0}},
+		{"opC.200.headerL.items", []string{"paths", "/c", "post", "responses", "200", "headers", "X-L", "items"}, "bad", 3.0},
+		{"D2.z", []string{"definitions", "D2", "properties", "z"}, "bad", map[string]any{"w": 1.0}},
+		{"opC.404", []string{"paths", "/c", "post", "responses", "404", "schema"}, "bad", []any{1.0}},
 	}
 }
 
@@ -81,7 +93,11 @@ func c09setAt(root map[string]any, path []string, key string, val any) bool {
 func c09pairDoc(sites []c09site, kind string) string {
 	doc := c09pairBase()
 	for _, s := range sites {
-		if !c09setAt(doc, s.path, kind, s.bad) {
+		v := s.bad
+		if strings.HasSuffix(s.name, " (accepted value)") {
+			v = s.good
+		}
+		if !c09setAt(doc, s.path, kind, v) {
 			panic("c09 pair layer: bad site path " + s.name)
 		}
 	}
@@ -118,7 +134,16 @@ func c09pairs(c *hx.Ctx, rep *hx.Report, sets *hx.SetAdder) {
 					return
 				}
 				first, second := usable[i], usable[j]
-				for _, cont := range []bool{true} {
+				firsts := []c09site{first}
+				if first.good != nil && c09nested(first.path, second.path) {
+					// an ACCEPTED value on one level must not hide a rejected one on another level of
+					// the same parameter / header / schema
+					g := first
+					g.name += " (accepted value)"
+					firsts = append(firsts, g)
+				}
+				for _, first := range firsts {
+					cont := true
 					one := c09run(c09pairDoc([]c09site{first}, kind), cont)
 					two := c09run(c09pairDoc([]c09site{first, second}, kind), cont)
 					rep.Inc("pair_layer_validations", 2)
@@ -162,4 +187,17 @@ func c09siteClass(n string) string {
 	default:
 		return "response schema"
 	}
+}
+
+// c09nested: is one site an ancestor of the other (same parameter, header or schema)?
+func c09nested(a, b []string) bool {
+	if len(a) > len(b) {
+		a, b = b, a
+	}
+	for i := range a {
+		if a[i] != b[i] {
+			return false
+		}
+	}
+	return true
 }
